@@ -285,7 +285,32 @@ CLAIMED["C09"] = dict(
        "magnetic case; axis-aligned orientations in the TLC-checked part.",
   ref="DESIGN.md section 5 (C09)", engine="tlc-pointops")
 
+CLAIMED["C10"] = dict(
+  technique="TLA+ first-principles reference of the distribution of a finite "
+            "dipole on the edges (DipoleOps.tla: cut at node planes, "
+            "multilinear weights, exact rationals) + TLC validation of the "
+            "vector of the real _dipole_vector and of the C10 laws on it",
+  text="For electrode pairs of the half-integer lattice on small integer "
+       "grids (axis-aligned, in faces, along edges, through nodes, oblique; "
+       "256 quick / ~6400 thorough) the vector of the real _dipole_vector is "
+       "extracted and TLC checks every entry against the reference and, on "
+       "the code's own numbers, that each component sums to the electrode "
+       "difference, that only edges of cells touched by the segment carry a "
+       "contribution, and the signs.  PARTIAL: wires (sum of segments), point "
+       "sources (unit direction), the strength and -s mu_0 scaling for "
+       "frequency / Laplace / frequency-free calls, dipole<->point "
+       "conversions and the square loop of magnetic dipoles (closed, planar, "
+       "area, right-handed normal, centred) are floating-point observations "
+       "at arbitrary positions and angles, not decided by the specification.",
+  note="Trusted: TLC; widths {1,2}, extents <= 4 units, electrodes strictly "
+       "inside the grid; rational recognition at 1e-13.",
+  ref="DESIGN.md section 5 (C10)", engine="tlc-dipoleops")
+
 ENGINES = [
+ dict(name="tlc-dipoleops", path="spec/DipoleOps.tla",
+      serves_properties=["C10"],
+      kind_free_text="TLA+ exact-arithmetic reference + TLC validation of "
+                     "extracted code vectors"),
  dict(name="tlc-pointops", path="spec/PointOps.tla",
       serves_properties=["C09"],
       kind_free_text="TLA+ exact-arithmetic reference + TLC validation of "
